@@ -67,6 +67,11 @@ type Scenario struct {
 	ArgsMode   int
 	Wire       int // 0: constructor tokens + map loader; 1..4: sealed + container (cbor, car, cbor64, car64) reader as loader, invocation decoded from its sealed bytes
 	Deviations []string
+	// Reuse / ReuseN: take the first ReuseN delegations (the links next to the invoker) as built
+	// for another scenario - the same token objects, sealed bytes and CIDs - instead of building
+	// new ones: two chains that share their lower links
+	Reuse  *Built
+	ReuseN int
 }
 
 // ---- reference predicates (R-chain) ---------------------------------------------------
@@ -304,13 +309,21 @@ func (s *Scenario) Build(r *rand.Rand) (*Built, error) {
 			wr.AddSealed(c, sealed)
 			continue
 		}
-		d, err := BuildDelegation(l, r)
-		if err != nil {
-			return nil, fmt.Errorf("link %d: %w", i, err)
-		}
-		sealed, c, err := d.ToSealed(l.Iss.Priv)
-		if err != nil {
-			return nil, fmt.Errorf("link %d seal: %w", i, err)
+		var d *delegation.Token
+		var sealed []byte
+		var c cid.Cid
+		if s.Reuse != nil && i < s.ReuseN && i < len(s.Reuse.Dlgs) && s.Reuse.Dlgs[i] != nil {
+			d, sealed, c = s.Reuse.Dlgs[i], s.Reuse.Sealed[i], s.Reuse.Cids[i]
+		} else {
+			var err error
+			d, err = BuildDelegation(l, r)
+			if err != nil {
+				return nil, fmt.Errorf("link %d: %w", i, err)
+			}
+			sealed, c, err = d.ToSealed(l.Iss.Priv)
+			if err != nil {
+				return nil, fmt.Errorf("link %d seal: %w", i, err)
+			}
 		}
 		b.Dlgs = append(b.Dlgs, d)
 		b.Cids = append(b.Cids, c)
